@@ -79,33 +79,100 @@ async fn async_writer(req: &Value) -> R {
     } else {
         None
     };
-    for (i, c) in chunks.iter().enumerate() {
-        if busy_at == Some(i) {
-            // start the write, poll it exactly once, abandon future and writer
-            let polled = w.write(&c[..]).now_or_never().is_some();
-            drop(w);
-            return Ok(json!({"dropped":true,"busy":!polled,"written":total,"calls":calls}));
-        }
-        let mut off = 0usize;
-        loop {
+    let after_err = if has(req, "after_write_error") { s(req, "after_write_error") } else { "fail" };
+    let mut write_errors: Vec<Value> = Vec::new();
+    let mut stop = false;
+    let use_write_all = req.get("use_write_all").and_then(|x| x.as_bool()).unwrap_or(false);
+    let cancels: Vec<(usize, Vec<u8>)> = req
+        .get("cancel_before")
+        .and_then(|x| x.as_array())
+        .map(|a| {
+            a.iter()
+                .map(|p| (p[0].as_u64().unwrap_or(0) as usize, get_data(&p[1])))
+                .collect()
+        })
+        .unwrap_or_default();
+    let mut cancelled: Vec<Value> = Vec::new();
+    if req.get("vectored").and_then(|x| x.as_bool()).unwrap_or(false) {
+        let mut slices: Vec<std::io::IoSlice> = chunks.iter().map(|c| std::io::IoSlice::new(c)).collect();
+        let mut bufs = &mut slices[..];
+        while bufs.iter().any(|b| !b.is_empty()) {
             let n = w
-                .write(&c[off..])
+                .write_vectored(bufs)
                 .await
-                .map_err(|e| staged(ioerr_json(&e), &format!("write[{i}]")))?;
+                .map_err(|e| staged(ioerr_json(&e), "write_vectored"))?;
             calls += 1;
-            off += n;
             total += n;
-            if off >= c.len() {
+            if n == 0 {
+                return Err(json!({"variant":"StdIo","kind":"WriteZero","stage":"write_vectored"}));
+            }
+            std::io::IoSlice::advance_slices(&mut bufs, n);
+        }
+    } else {
+        for (i, c) in chunks.iter().enumerate() {
+            if busy_at == Some(i) {
+                // start the write, poll it exactly once, abandon future and writer
+                let polled = w.write(&c[..]).now_or_never().is_some();
+                drop(w);
+                return Ok(json!({"dropped":true,"busy":!polled,"written":total,"calls":calls}));
+            }
+            // "cancel_before": [[i, data], ...]  =>  before chunk i, a write of `data` is started, polled once and
+            // its future dropped (a timeout or select! that lost); the writer itself stays in use
+            for cb in cancels.iter().filter(|cb| cb.0 == i) {
+                let done = w.write(&cb.1[..]).now_or_never().is_some();
+                cancelled.push(json!({"before":i,"len":cb.1.len(),"completed_at_once":done}));
+            }
+            if use_write_all {
+                w.write_all(&c[..])
+                    .await
+                    .map_err(|e| staged(ioerr_json(&e), &format!("write_all[{i}]")))?;
+                calls += 1;
+                total += c.len();
+                if flush_after.contains(&i) {
+                    w.flush()
+                        .await
+                        .map_err(|e| staged(ioerr_json(&e), &format!("flush[{i}]")))?;
+                }
+                continue;
+            }
+            let mut off = 0usize;
+            let mut retried = false;
+            loop {
+                let n = match w.write(&c[off..]).await {
+                    Ok(n) => n,
+                    Err(e) => {
+                        let ej = staged(ioerr_json(&e), &format!("write[{i}]"));
+                        if after_err == "retry" && !retried {
+                            retried = true;
+                            write_errors.push(ej);
+                            continue;
+                        }
+                        if after_err == "commit" {
+                            write_errors.push(ej);
+                            stop = true;
+                            break;
+                        }
+                        return Err(ej);
+                    }
+                };
+                calls += 1;
+                off += n;
+                total += n;
+                if off >= c.len() {
+                    break;
+                }
+                if n == 0 {
+                    return Err(json!({"variant":"StdIo","kind":"WriteZero","stage":format!("write[{i}]")}));
+                }
+            }
+            if stop {
                 break;
             }
-            if n == 0 {
-                return Err(json!({"variant":"StdIo","kind":"WriteZero","stage":format!("write[{i}]")}));
+            if flush_after.contains(&i) {
+                w.flush()
+                    .await
+                    .map_err(|e| staged(ioerr_json(&e), &format!("flush[{i}]")))?;
             }
-        }
-        if flush_after.contains(&i) {
-            w.flush()
-                .await
-                .map_err(|e| staged(ioerr_json(&e), &format!("flush[{i}]")))?;
         }
     }
     match fin {
@@ -135,8 +202,9 @@ async fn async_writer(req: &Value) -> R {
         _ => {
             pause_before_commit(req);
             let cw0 = wall_ms();
-            let sri = w.commit().await.map_err(|e| staged(err_json(&e), "commit"))?;
-            Ok(json!({"sri":sri.to_string(),"written":total,"calls":calls,"commit_w0":cw0.to_string()}))
+            let sri = w.commit().await.map_err(|e| commit_err(&e, cache))?;
+            Ok(json!({"sri":sri.to_string(),"written":total,"calls":calls,"commit_w0":cw0.to_string(),
+                      "write_errors":write_errors,"cancelled":cancelled}))
         }
     }
 }
@@ -167,6 +235,14 @@ async fn async_handle(req: &Value) -> R {
                 .with(|h| h.borrow_mut().remove(&wid))
                 .ok_or_else(|| no_handle(&wid))?;
             let c = get_data(&req["data"]);
+            if req.get("cancel").and_then(|x| x.as_bool()).unwrap_or(false) {
+                // start the write, poll it exactly once, drop the FUTURE (a timeout / select! that lost) and keep
+                // the writer for further use
+                let polled = w.write(&c[..]).now_or_never();
+                let done = polled.is_some();
+                ASYNC_HANDLES.with(|h| h.borrow_mut().insert(wid, w));
+                return Ok(json!({"cancelled":true,"completed_at_once":done}));
+            }
             let mut off = 0usize;
             let mut calls = 0u64;
             let mut res: R = Ok(Value::Null);
@@ -202,7 +278,7 @@ async fn async_handle(req: &Value) -> R {
                 drop(w);
                 return Ok(json!({"dropped":true}));
             }
-            let sri = w.commit().await.map_err(|e| staged(err_json(&e), "commit"))?;
+            let sri = w.commit().await.map_err(|e| commit_err(&e, cache))?;
             Ok(json!({"sri":sri.to_string()}))
         }
     }
